@@ -225,6 +225,34 @@ def run(ctx):
             judge(res, "reuse:changed", f"the same segment objects after link_address = {s2}, logical_value = {lv2:#x} (were {s1}, {lv1:#x})", out,
                   [("port", num, s2), ("logical", rname, lv2)])
             res.seen("reuse", width(lv1), width(lv2), isinstance(alias, str))
+        # symbolic segments whose name holds characters outside ASCII (Logix itself has none; the encoder is public): judged on
+        # STRUCTURE only, whatever encoding the library picks - word count, length byte = number of name BYTES, pad byte iff odd
+        for n in range(1, 40):
+            base = rand_name(rng, n)
+            k = rng.randrange(len(base))
+            nm = base[:k] + rng.choice(["é", "ü", "ß", "Ω", "ж", "中", "é" * 2, "€"]) + base[k + 1:]
+            out = call(enc, [p.DataSegment(nm)], length=True)
+            res.ev()
+            res.seen("symbol-non-ascii", n % 2, len(nm.encode("utf-8")) % 2)
+            if isinstance(out, Exception):
+                res.dont_care("non-ascii-symbol-rejected-by-the-encoder")
+                continue
+            o = bytes(out)
+            why = None
+            if len(o) < 4 or len(o) % 2 == 0 or o[0] * 2 != len(o) - 1:
+                why = f"word count {o[0] if o else None} does not describe the {max(len(o) - 1, 0)} bytes that follow"
+            elif o[1] != 0x91:
+                why = f"segment type {o[1]:#x} is not an ANSI extended symbol segment"
+            else:
+                ln = o[2]
+                name_bytes, rest = o[3:3 + ln], o[3 + ln:]
+                ok_name = any(name_bytes == nm.encode(e_, "ignore") and nm.encode(e_, "ignore").decode(e_) == nm for e_ in ("utf-8", "latin-1", "utf-16-le"))
+                if len(name_bytes) != ln or not ok_name:
+                    why = f"length byte {ln} does not match the bytes of the name ({len(nm)} characters, {len(nm.encode('utf-8'))} UTF-8 bytes)"
+                elif rest != (b"\x00" if ln % 2 else b""):
+                    why = f"pad after a {ln}-byte name is {rest.hex() or 'missing'}"
+            if why:
+                res.violation("malformed:symbol-non-ascii", f"DataSegment({nm!r}) -> {o.hex()}: {why}", {"name": nm, "path": o})
         # symbolic data segments on their own
         for n in range(1, 60):
             nm = rand_name(rng, n)
